@@ -7,6 +7,7 @@ import (
 	"encoding/json"
 	stdflag "flag"
 	"fmt"
+	"math"
 	"net"
 	"reflect"
 	"sort"
@@ -502,14 +503,19 @@ func genText(r *coqfmt.Rng, fi flagInfo) (string, bool) {
 	return "", false
 }
 
+// hugeFinite: beyond the fixed-point value printer.  An infinity is NOT skipped: no generated text
+// denotes one, so one in a returned value is an overflow that went unreported.
+func hugeFinite(f float64) bool {
+	return !math.IsInf(f, 0) && (f > 1e15 || f < -1e15)
+}
+
 func hasHugeFloat(v reflect.Value) bool {
 	switch v.Kind() {
 	case reflect.Float32, reflect.Float64:
-		f := v.Float()
-		return f > 1e15 || f < -1e15
+		return hugeFinite(v.Float())
 	case reflect.Complex64, reflect.Complex128:
 		c := v.Complex()
-		return real(c) > 1e15 || real(c) < -1e15 || imag(c) > 1e15 || imag(c) < -1e15
+		return hugeFinite(real(c)) || hugeFinite(imag(c))
 	case reflect.Ptr, reflect.Interface:
 		return !v.IsNil() && hasHugeFloat(v.Elem())
 	case reflect.Struct:
